@@ -24,6 +24,8 @@ pub enum Fault {
     Interrupt(usize),
     /// accept only part of each buffer: 0 = 1 byte, 1 = ceil(len/2), 2 = len-1, 3 = alternating 1/full
     Short(u8),
+    /// accept at most k bytes per call
+    AtMost(usize),
 }
 
 pub struct Sink {
@@ -75,6 +77,11 @@ impl Write for Sink {
                     }
                 }
                 .min(b.len());
+                self.buf.extend_from_slice(&b[..n]);
+                return Ok(n);
+            }
+            Fault::AtMost(k) => {
+                let n = k.min(b.len());
                 self.buf.extend_from_slice(&b[..n]);
                 return Ok(n);
             }
@@ -151,6 +158,12 @@ pub fn corpus(tier: &str) -> Vec<Doc> {
     }
     for n in ["s0", "s1", "w0", "kitchen_xsd", "kitchen_wsdl"] {
         v.push(Doc { label: format!("seed:{n}"), case: crate::seeds::by_name(n).to_case() });
+    }
+    {
+        let mut k = crate::seeds::kitchen_xsd();
+        k.files[0].comps.push(crate::seeds::simple("Farbe", "string", vec![("enumeration", "Gr\u{fc}n"), ("enumeration", "Bleu p\u{e2}le"), ("enumeration", "\u{9752}\u{8272}")]));
+        k.files[0].comps.push(crate::schema::Comp::Complex(crate::schema::ComplexType { name: "Beschreibung".into(), doc: Some("Gr\u{f6}\u{df}e \u{2014} \u{9752}\nzweite Zeile".into()), seq: Some(crate::schema::Seq::of(vec![crate::seeds::el("Wert", crate::schema::TypeRef::b("string"))])), ..Default::default() }));
+        v.push(Doc { label: "seed:non-ascii".into(), case: k.to_case() });
     }
     // a WSDL without any targetNamespace: reaches the emitters for components outside a namespace
     v.push(Doc { label: "raw:no-namespace-wsdl".into(), case: Case::single("nons.wsdl", NO_NS_WSDL) });
@@ -331,6 +344,11 @@ fn judge(doc: &Doc, info: &DocInfo, reference: &[u8], fault: Fault, res: &WriteR
             }
             o => Some(viol(doc, "sink.short_write_diff", "whole-document", "short", &format!("pattern{p}"), 0, "Ok", format!("{o:?}"))),
         },
+        Fault::AtMost(k) => match res {
+            WriteResult::Ok if sink.buf == reference => None,
+            WriteResult::Ok => Some(viol(doc, "sink.short_write_diff", "whole-document", "short", "at-most-k", k, "byte-identical output", "output differs".into())),
+            o => Some(viol(doc, "sink.short_write_diff", "whole-document", "short", "at-most-k", k, "Ok", format!("{o:?}"))),
+        },
         Fault::None => None,
     }
 }
@@ -454,11 +472,17 @@ pub fn check(tier: &str) -> i32 {
         let mut rs = Sink::new(Fault::None, false);
         let _ = write_with(&d, &mut rs);
         let reference = rs.buf;
-        for p in 0..4u8 {
-            let mut s = Sink::new(Fault::Short(p), false);
+        let mut shorts: Vec<Fault> = (0..4u8).map(Fault::Short).collect();
+        // at most k bytes per call, k = 2..=96: a partial write can end at every offset of every buffer
+        // (inside a multi-byte character in particular) for the documents that are small enough
+        if info.n_calls <= 3_000 {
+            shorts.extend((2..=96usize).map(Fault::AtMost));
+        }
+        for f in shorts {
+            let mut s = Sink::new(f, false);
             let r = write_with(&d, &mut s);
             evals += 1;
-            if let Some(x) = judge(doc, info, &reference, Fault::Short(p), &r, &s) {
+            if let Some(x) = judge(doc, info, &reference, f, &r, &s) {
                 let key = format!("{}|{:?}", x.clause, x.context);
                 agg.entry(key).and_modify(|x| x.1 += 1).or_insert((x, 1));
             }
@@ -470,7 +494,7 @@ pub fn check(tier: &str) -> i32 {
     let distinct_sites_swept: BTreeSet<&String> = infos.iter().filter(|(_, i)| i.n_calls <= one_kind_limit).flat_map(|(_, i)| i.site_of_call.iter()).collect();
     rep.set("evaluations", json!(evals));
     rep.set("distinct_nontrivial", json!(distinct_sites_swept.len()));
-    rep.set("rule", json!("for every corpus document every write-call index k in [0,N) is failed once (kinds Other, BrokenPipe, PermissionDenied, StorageFull, Ok(0), Interrupted for documents up to the full-sweep limit; kind Other for larger ones) and 4 short-write patterns are applied to the whole document; each evaluation is one write_xml run on the real library; distinct_nontrivial = number of distinct zeep-lib source sites (file:line, from the call stack of each write call) at which a fault was injected"));
+    rep.set("rule", json!("for every corpus document every write-call index k in [0,N) is failed once (kinds Other, BrokenPipe, PermissionDenied, StorageFull, Ok(0), Interrupted for documents up to the full-sweep limit; kind Other for larger ones) and short-write patterns (1 byte, half, all but one, alternating, and at most k bytes per call for k = 2..96) are applied to the whole document; each evaluation is one write_xml run on the real library; distinct_nontrivial = number of distinct zeep-lib source sites (file:line, from the call stack of each write call) at which a fault was injected"));
     rep.set("exhaustive", json!(skipped_docs.is_empty()));
     rep.set("documents_swept", json!(swept_docs));
     rep.set("documents_skipped", json!(skipped_docs));
